@@ -1,5 +1,5 @@
 """C01 - see DESIGN.md section 5"""
 from . import semprops, semjobs
-spec, validate = semprops.make(['grounded'], 'grounded')
-replay = semjobs.replay
-key = semjobs.key
+spec, validate = semprops.make(['grounded'], 'grounded', backend_kinds=('grounded',))
+replay = semprops.replay
+key = semprops.key
